@@ -633,6 +633,19 @@ def gen_b(ctx, rnd):
     add(nh, "B.sel_excluded_key_of_history_kernel")
     add(dict(nh, chunk=2, excl=["p2", "p3", "p1"], incl=["c"]), "B.sel_excluded_key_of_history_kernel")
 
+    # several builders in one process, some configured in place (.append / .extend on the attribute lists), others left
+    # at their defaults or given fresh lists, created / configured in varying order: each engine follows ITS OWN selection
+    sess = {"epochs": [[0, 1, 1], [1, 2, 1], [4, 2, 1]], "nchains": 1, "kernels": [[["p1", "s"]], [["p2", "v3"]]],
+            "ngens": 0, "store_ks": False}
+    add(dict(sess, incl=[], excl=[], sel_mode="default",
+             session=[{"when": "before_create", "incl": ["c"], "excl": ["p2"], "mode": "append"}]), "B.session_several_builders")
+    add(dict(sess, incl=["acc"], excl=["p1"], sel_mode="append",
+             session=[{"when": "after_create", "incl": ["junk", "c"], "excl": ["p2"], "mode": "extend"},
+                      {"when": "before_create", "incl": ["cid"], "excl": [], "mode": "assign"}]), "B.session_several_builders")
+    add(dict(sess, incl=[], excl=[], sel_mode="default",
+             session=[{"when": "after_config", "incl": ["acc"], "excl": [], "mode": "extend"},
+                      {"when": "after_create", "incl": [], "excl": ["p1"], "mode": "append"}]), "B.session_several_builders")
+
     # ---- forced strata ----
     n_rounds = 1 if ctx.quick else 8
     sel_kinds = ["default", "incl", "excl_one", "incl_excl_overlap", "incl_dup_kernel_key", "excl_unknown",
@@ -684,6 +697,18 @@ def gen_b(ctx, rnd):
         k = rnd.randint(1, len(eps) - 1)
         add(dict(cfg, chunk=rnd.choice(divisors(g)), driver=f"append:{k}:{rnd.choice(['each', 'bulk'])}"), "B.append_epoch_history", f)
         if r > 0:
+            # sessions of several builders, randomised
+            kernels, extra = gen_layout(rnd, nk=2)
+            kk = [k for ks in kernels for k, _ in ks]
+            pool = ["c", "acc", "junk", "cid"] + [k for k, _ in extra]
+            mode = rnd.choice(["default", "default", "append", "extend", "assign"])
+            incl = [] if mode == "default" else rnd.sample(pool, rnd.randint(1, 2))
+            excl = [] if mode == "default" else rnd.sample(kk, rnd.randint(0, 1))
+            session = [{"when": rnd.choice(["before_create", "after_create", "after_config"]),
+                        "incl": rnd.sample(pool, rnd.randint(0, 2)), "excl": rnd.sample(kk, rnd.randint(0, 1)),
+                        "mode": rnd.choice(["append", "extend", "append", "assign"])} for _ in range(rnd.randint(1, 3))]
+            add({"epochs": gen_sched(rnd, maxk=3), "nchains": rnd.choice([1, 2]), "kernels": kernels, "extra": extra, "incl": incl,
+                 "excl": excl, "sel_mode": mode, "session": session, "ngens": 0, "store_ks": False}, "B.session_several_builders")
             # computed tracked quantities / history-needing kernels, randomised
             kernels, extra = gen_layout(rnd, nk=rnd.choice([1, 2]))
             kk = [k for ks in kernels for k, _ in ks] + [k for k, _ in extra] + ["cid", "c"]
@@ -929,6 +954,7 @@ def run(ctx) -> int:
         "pytree slicing / concatenation of chunks (slice_leaves, concatenate_leaves) acts leafwise and chainwise: tested with two leaves and several chains in part A, all payload shapes in part B",
         "part C: identical results of the real engine for every admissible jitted duration and every driver - sample_all_epochs, sample_next_epoch one by one, epochs handed over later with append_epoch (tested on the generated families; the theorems are about the model run on the whole schedule, the call-trace version of incremental = batch is C07's)",
         "accessors are functions of the stored chains: every engine run and every chain-manager script reads all accessors, edits the returned containers in place (entry added / replaced / deleted) and reads again; the second read is what the model is compared with (aliasing is outside the functional model)",
+        "no shared state between EngineBuilder objects: sessions of several builders in one process, configured in place (.append / .extend) or left at their defaults, in varying order; each engine's tracked keys follow its own configuration (object identity / aliasing is outside the functional model)",
         "a user-defined ModelInterface with computed tracked quantities (cumulative sum / centring per chain) and per-chain different initial states: index 0 and all later entries per chain against the model (vmap = per-chain map is modelled, not proved)",
         "payload shape of stored arrays equals the shape in the model state (tested; the model stores flattened payloads)"]
     ctx.extra_tb = ["harness stamp kernels / generators (harness/lv/c08_kit.py) and their Gallina counterparts (Goose/CorrC08.v: stamp_kernel, stamp_gen, c_pre, c_post)",
